@@ -1472,7 +1472,16 @@ func (a *align) MaxCharStats(ignoreGaps, ignoreNs bool) (out []uint8, occur []in
 			mapstats[uint8(unicode.ToUpper(rune(seq.sequence[site])))]++
 		}
 
-		for k, v := range mapstats {
+		// Characters are traversed in a fixed order, in order
+		// to always take the same one in case of equality
+		chars := make([]int, 0, len(mapstats))
+		for k := range mapstats {
+			chars = append(chars, int(k))
+		}
+		sort.Ints(chars)
+		for _, c := range chars {
+			k := uint8(c)
+			v := mapstats[k]
 			// If we exclude gaps and it is a gap: we do nothing
 			// Otherwise, if v > max, we update max occurence char
 			if !(ignoreGaps && k == GAP) && !(ignoreNs && (k == all || k == allc)) {
